@@ -19,6 +19,13 @@ case "$what" in
       VERIF_WORKERS=16 "$BIN" hashes "$scn" "$n" > "$tmp/b" || { echo "FAIL $scn (run b)"; fail=1; continue; }
       VERIF_WORKERS=4  "$BIN" hashes "$scn" "$n" > "$tmp/c" || { echo "FAIL $scn (run c)"; fail=1; continue; }
       VERIF_WORKERS=1  "$BIN" hashes "$scn" "$n" > "$tmp/d" || { echo "FAIL $scn (run d)"; fail=1; continue; }
+      # the same scenario with the Trace logger installed (run indices with bit 40 set)
+      VERIF_WORKERS=16 "$BIN" hashes "$scn" "$((n/4+1))" quick logging > "$tmp/la" || { echo "FAIL $scn (logging run a)"; fail=1; continue; }
+      VERIF_WORKERS=3  "$BIN" hashes "$scn" "$((n/4+1))" quick logging > "$tmp/lb" || { echo "FAIL $scn (logging run b)"; fail=1; continue; }
+      if ! cmp -s "$tmp/la" "$tmp/lb"; then
+        echo "FAIL $scn: event-log hashes differ with the logger installed"
+        fail=1
+      fi
       if cmp -s "$tmp/a" "$tmp/b" && cmp -s "$tmp/a" "$tmp/c" && cmp -s "$tmp/a" "$tmp/d"; then
         echo "ok   $scn: $n runs x 4 processes (16/16/4/1 workers): identical event-log hashes ($(sort -u -k2 "$tmp/a" | wc -l) distinct)"
       else
